@@ -544,6 +544,8 @@ def replay_c20(d, case):
 def replay_c02(d, case):
     from amr_kitchen import PlotfileCooker
     limit, header_only, maxmins = case['args']
+    if case.get('limit_type') == 'np.int64' and limit is not None:
+        limit = np.int64(limit)
     E = case['expected']
     plt = os.path.join(d, 'plt')
     if header_only:
@@ -621,6 +623,8 @@ def replay_c08(d, case):
     import contextlib, io
     from amr_kitchen.mandoline.mandoline import Mandoline
     fields, limit, serial = case['args']
+    if case.get('np_limit') and limit is not None:
+        limit = np.int64(limit)
     with contextlib.redirect_stdout(io.StringIO()):
         try:
             if case.get('cli'):
